@@ -421,19 +421,66 @@ The model uses `Nat` bytes, the translation `BitVec 8`: the abstraction function
 /-- TIE: the translated `lower` (`c | 32`) is the model's `lower` on EVERY byte; it cannot panic. -/
 theorem c07_trans_lower (c : BitVec 8) :
     Golib.Gen.Trans.C07.lower c = .ok (BitVec.ofNat 8 (Golib.C07.lower c.toNat)) :=
-  trans_lower_eq c
+  Tie.trans_lower_eq c
 
 /-- TIE: the translated `upper` (`c &^ (c >> 6 << 5)`, what `toUpper` applies to every digit of a
 Format escape) is the model's `upper` on EVERY byte; it cannot panic. -/
 theorem c07_trans_upper (c : BitVec 8) :
     Golib.Gen.Trans.C07.upper c = .ok (BitVec.ofNat 8 (Golib.C07.upper c.toNat)) :=
-  trans_upper_eq c
+  Tie.trans_upper_eq c
 
 /-- Non-vacuity: `upper('f') = 'F'`, `upper('7') = '7'`, `lower('U') = 'u'`. -/
 example : Golib.Gen.Trans.C07.upper 102#8 = .ok 70#8 ∧
     Golib.Gen.Trans.C07.upper 55#8 = .ok 55#8 ∧
     Golib.Gen.Trans.C07.lower 85#8 = .ok 117#8 := by
   refine ⟨?_, ?_, ?_⟩ <;> decide +kernel
+
+/-- TIE: the translated generic `parseUint` (instantiations string and []byte have the same
+translation: a byte list) equals the model's `parseUint` — the definition `c07_parseUint_spec` and
+all four parser bodies are about — for EVERY byte string, every base `2 ≤ base < 2^64` and every
+`bitSize < 2^64`; abstraction: `Tie.bytesOf = List.map BitVec.toNat`, value `BitVec.ofNat 64`, index
+`Int.ofNat`.  In particular it neither panics nor runs out of fuel there. -/
+theorem c07_trans_parseUint (s : List (BitVec 8)) (base bitSize : Nat)
+    (h2 : 2 ≤ base) (hb : base < 2 ^ 64) (hbits : bitSize < 2 ^ 64) :
+    Golib.Gen.Trans.C07.parseUint s (base : Int) (bitSize : Int)
+      = .ok (BitVec.ofNat 64 (Golib.C07.parseUint (Tie.bytesOf s) base bitSize).1,
+             ((Golib.C07.parseUint (Tie.bytesOf s) base bitSize).2.1 : Int),
+             (Golib.C07.parseUint (Tie.bytesOf s) base bitSize).2.2) :=
+  Tie.trans_parseUint_eq s base bitSize h2 hb hbits
+
+/-- Exactly where the model does not apply the code panics: base 0 divides by zero. -/
+theorem c07_trans_parseUint_base0 (s : List (BitVec 8)) (bitSize : Int) :
+    Golib.Gen.Trans.C07.parseUint s 0 bitSize = .panic :=
+  Tie.trans_parseUint_base0 s bitSize
+
+/-- The property clause directly on the generated definition: a string of digits of the base whose
+value fits the bit size is parsed to `(value, len(s), true)` — for every base 2..36, bit size ≤ 64
+and length. -/
+theorem c07_trans_parseUint_digits (s : List (BitVec 8)) (base bits : Nat) (hb : 2 ≤ base ∧ base ≤ 36)
+    (hbits : bits ≤ 64) (hd : ∀ c ∈ Tie.bytesOf s, isDigit base c = true)
+    (hv : valOf base (Tie.bytesOf s) ≤ 2 ^ bits - 1) :
+    Golib.Gen.Trans.C07.parseUint s (base : Int) (bits : Int)
+      = .ok (BitVec.ofNat 64 (valOf base (Tie.bytesOf s)), (s.length : Int), true) := by
+  rw [c07_trans_parseUint s base bits hb.1 (by omega) (by omega),
+    (c07_parseUint_spec (Tie.bytesOf s) base bits hb hbits).1 hd hv]
+  simp [Tie.bytesOf]
+
+/-- Non-vacuity: `"777"` base 8 into 8 bits stops at index 2 with 255; `"fF"` base 16 is 255. -/
+example : Golib.Gen.Trans.C07.parseUint [55#8, 55#8, 55#8] 8 8 = .ok (255#64, 2, false) ∧
+    Golib.Gen.Trans.C07.parseUint [102#8, 70#8] 16 8 = .ok (255#64, 2, true) := by
+  constructor <;> decide +kernel
+
+/-- TIE: the translated `toUpper` (`for i, b := range dst { dst[i] = upper(b) }`; `dst` is an in-out
+parameter of the translation: its final content is the result) equals the model's `toUpper`
+(`map upper`) for EVERY byte slice; no write is out of range. -/
+theorem c07_trans_toUpper (dst : List (BitVec 8)) :
+    Golib.Gen.Trans.C07.toUpper dst
+      = .ok ((Golib.C07.toUpper (Tie.bytesOf dst)).map (BitVec.ofNat 8)) :=
+  Tie.trans_toUpper_eq dst
+
+/-- Non-vacuity: `"a7f_"` becomes `"A7F_"`. -/
+example : Golib.Gen.Trans.C07.toUpper [97#8, 55#8, 102#8, 95#8] = .ok [65#8, 55#8, 70#8, 95#8] := by
+  decide +kernel
 -- END wave-8 tie block (trans-strconv)
 
 end Golib.C07
